@@ -101,6 +101,17 @@ def pool_scenarios(tier):
     out.append(_pool([_bc(2, (0,), bomb=True)]))
     out.append(_pool([_bc(2, (0, 2), bomb=True), _bc(1)]))
     out.append(_pool([_bc(1, (0,), extend=True, bomb=True)]))
+    # the same worker (or the caller) panics in two different broadcasts: per-thread state of a reused worker
+    out.append(_pool([_bc(1, (1,)), _bc(1, (1,))]))
+    out.append(_pool([_bc(1, (1,)), _bc(1), _bc(1, (1,))], pb=3))
+    out.append(_pool([_bc(1, (0,)), _bc(1, (0,))]))
+    out.append(_pool([_bc(2, (2,)), _bc(1, (1,))], pb=3))
+    out.append(_pool([_bc(1, (0, 1)), _bc(1, (0, 1))]))
+    # consecutive par_extend calls into one reused vector (cleared, capacity kept), panics in the later one
+    out.append(_pool([_bc(1, extend=True), _bc(1, (1,), extend=True)]))
+    out.append(_pool([_bc(1, (1,), extend=True), _bc(1, (1,), extend=True)]))
+    out.append(_pool([_bc(2, extend=True), _bc(1, (0,), extend=True)], pb=3))
+    out.append(_pool([_bc(2, extend=True), _bc(2, (2,), extend=True)], pb=3))
     # broadcasts issued by different threads on the same pool (sequentially)
     out.append(_pool([_bc(1), _bc(1, caller=1)]))
     out.append(_pool([_bc(1, caller=1), _bc(1)]))
